@@ -78,6 +78,22 @@ def write_header(langs, path, known_prefix=None):
             if not L["is_sorted"]:
                 perm = sorted(range(len(L["words"])), key=lambda i: L["words"][i])
                 f.write("static const uint16_t PERM_%s[2048] = {%s};\n" % (lid, ",".join(map(str, perm))))
+            if L["has_prefix"]:
+                strip = bool(L["has_accents"])
+                ab, pl = [], []
+                for w in L["words"]:
+                    seen, a, pln = 0, bytearray(), bytearray()
+                    for c in w:
+                        mark = strip and c >= 0x80
+                        if not mark:
+                            seen += 1
+                            pln.append(c)
+                        if seen <= 4:
+                            a.append(c)
+                    ab.append(bytes(a)); pl.append(bytes(pln))
+                esc = lambda b: '"' + "".join("\\x%02x" % c for c in b) + '"'
+                f.write("static const char* const ABBR_%s[2048] = {%s};\n" % (lid, ",".join(esc(x) for x in ab)))
+                f.write("static const char* const PLAIN_%s[2048] = {%s};\n" % (lid, ",".join(esc(x) for x in pl)))
             kp = known_prefix.get(lid, [])
             f.write("#define NKNOWN_%s %d\n" % (lid, len(kp)))
             f.write("static const char* const KNOWN_PREFIX_%s[%d][2] = {%s};\n" % (
